@@ -402,25 +402,25 @@ Definition c11_hist_wf (c : hcase) : bool := hist_ok toy_ser (h_ver c) init_ssta
 (* ------------------------------------------------------------------ *)
 Inductive sweep_res := SNone | SSame | SOther | SRaised.
 Record scase := mkscase {
-  s_len : nat; s_n : nat; s_zf : bool;
+  s_kind : kind; s_len : N; s_n : N; s_zf : bool;
   s_first : sweep_res; s_exists : bool; s_second : sweep_res }.
 
 Definition sres_eqb (a b : sweep_res) : bool :=
   match a, b with SNone, SNone | SSame, SSame | SOther, SOther | SRaised, SRaised => true | _, _ => false end.
 
-(* property text: a damaged entry yields nothing, no exception, and is removed so that the
-   next load refetches; an undamaged one yields the stored object (or nothing) *)
+(* property text: a lookup yields nothing or the stored object, never something else, never an
+   exception; an entry that yields nothing is removed so that the next load refetches; an entry
+   that is cut short cannot yield the object *)
 Definition c11_sweep_spec_ok (c : scase) : bool :=
-  if Nat.ltb (s_n c) (s_len c)
-  then sres_eqb (s_first c) SNone && negb (s_exists c) && sres_eqb (s_second c) SNone
-  else (sres_eqb (s_first c) SSame && sres_eqb (s_second c) SSame && s_exists c)
-       || (sres_eqb (s_first c) SNone && sres_eqb (s_second c) SNone).
+  (sres_eqb (s_first c) SNone && negb (s_exists c) && sres_eqb (s_second c) SNone)
+  || (negb (N.ltb (s_n c) (s_len c)) && sres_eqb (s_first c) SSame && sres_eqb (s_second c) SSame && s_exists c).
 
-(* the model on the same entry: object 0 stored through an instance of class k, then torn *)
-Definition c11_sweep_agrees (k : kind) (c : scase) : bool :=
+(* the model on the same entry: object 0 stored through an instance of the class, then torn *)
+Definition c11_sweep_agrees (c : scase) : bool :=
+  let k := s_kind c in
   let c0 := mkinst k 0 in
-  let n := Nat.min (s_n c) 5 in
-  let flt := if Nat.ltb (s_n c) (s_len c) then FWrite (Nat.min (s_n c) 4) (s_zf c) else NoFault in
+  let flt := if N.ltb (s_n c) (s_len c)
+             then FWrite (if N.ltb (s_n c) 4 then N.to_nat (s_n c) else 4%nat) (s_zf c) else NoFault in
   let f1 := snd (cache_put toy_ser flt c0 0 [97]%N 0%N fs_empty) in
   let (r1, f2) := cache_get toy_deser NoFault c0 0 [97]%N f1 in
   let (r2, f3) := cache_get toy_deser NoFault c0 0 [97]%N f2 in
